@@ -1130,6 +1130,9 @@ func vReadFaults(s *store, evs []vGenEvent, times []int64, dids map[string]did.D
 	return strings.Join(parts, " | ")
 }
 
+// vReadFaultLeg: the read-fault leg runs on the corpus, on replays and on every 3rd generated sequence
+var vReadFaultLeg = true
+
 func TestVerifC10(t *testing.T) {
 	outDir := os.Getenv("VERIF_OUT")
 	if outDir == "" {
@@ -1276,9 +1279,11 @@ func TestVerifC10(t *testing.T) {
 		implW.WriteString(vRawDump(s))
 		implW.WriteByte('\n')
 		// every read entry point with a failing k-th Get of its read transaction
-		opsW.WriteString(`{"op":"rfault"}` + "\n")
-		implW.WriteString(vReadFaults(s, evs, times, dids))
-		implW.WriteByte('\n')
+		if vReadFaultLeg {
+			opsW.WriteString(`{"op":"rfault"}` + "\n")
+			implW.WriteString(vReadFaults(s, evs, times, dids))
+			implW.WriteByte('\n')
+		}
 		// restart: a fresh store object on the same database must give the same answers (conflicted cache reload)
 		s2 := New(&storage.StaticKVStoreProvider{Store: db}).(*store)
 		opsW.WriteString(`{"op":"again"}` + "\n")
@@ -1410,6 +1415,7 @@ func TestVerifC10(t *testing.T) {
 			if redisEvery > 0 && (seqN%redisEvery == redisEvery-1 || (n <= 4 && seqN%2 == 1)) {
 				backend = "redis"
 			}
+			vReadFaultLeg = seqN%3 == 0
 			seqN++
 			runSeq(set, evs, arrival, fail, probes, backend)
 		}
